@@ -57,10 +57,10 @@ Qed.
 
 (** a stream that passes the sequential check satisfies the clause of its temporality *)
 Theorem stream_ok_sound rc r i h outs : stream_ok false rc r i h outs = true ->
-  if r_delta rc then DeltaExact (cycles false rc r i h false false []) outs
-  else CumTotal (cycles false rc r i h false false []) outs.
+  if r_delta rc then DeltaExact (cycles false rc r i h false false false []) outs
+  else CumTotal (cycles false rc r i h false false false []) outs.
 Proof.
-  unfold stream_ok. destruct (r_delta rc); intros H.
+  unfold stream_ok. intros H. apply andb_true_iff in H as [H _]. destruct (r_delta rc).
   - now apply delta_exactb_sound.
   - now apply (cum_totalb_sound _ []).
 Qed.
